@@ -215,6 +215,21 @@ def check_map(ctx, Canon, aliases, preferred, rng, steps):
         if extra:
             ctx.violation('alias-extra-storage', f'after {desc} the aliased model has extra entries {sorted(extra)}', case)
             return
+    # ---- preferences edited on the instance: ambiguity is (also) rejected at export ----------------------
+    # (`preferred_names` copies PREFERRED_NAMES "initially" - the export's own error message - so it may be edited later)
+    for v in VARS:
+        if len(spellings[v]) < 2:
+            continue
+        pair = rng.sample(spellings[v], 2)
+        others = [p for p in preferred if resolve(aliases, p) != v and p != v]
+        m2 = m.copy()
+        m2.preferred_names = others + pair if rng.random() < 0.5 else pair + others
+        r = do(lambda: m2.to_dataframe(use_aliases=True))
+        ctx.count('runtime_preferences_checked')
+        if not (r[0] == 'exc' and r[1] == 'ValueError'):
+            ctx.violation('ambiguous-preference-accepted', f'preferred_names set to {m2.preferred_names} on the instance (both name {v!r}; aliases {aliases}) but the export returned {r[0]} '
+                          f'{list(r[1].columns) if r[0] == "ret" else r[1]}', dict(case, runtime_preferred=list(m2.preferred_names)))
+            return
     # ---- export ---------------------------------------------------------------------------
     for flags in ({}, {'status': False}, {'iterations': False, 'status': False}):
         plain = twin.to_dataframe(**flags)
